@@ -44,6 +44,8 @@ registry! {
     "C02" => props::c02::C02,
     "C03" => props::c03::C03,
     "C04" => props::c04::C04,
+    "C05" => props::c05::C05,
+    "C06" => props::c06::C06,
     "C08" => props::c08::C08,
     "C09" => props::c09::C09,
     "C11" => props::c11::C11,
